@@ -5462,12 +5462,10 @@ class PyCdlib:
             # If we aren't making a Rock Ridge symlink at the same time, we need
             # to add a new zero-byte file to the ISO.
             if rr_path is None:
-                tmp_joliet_path = joliet_path
-                if tmp_joliet_path is None:
-                    tmp_joliet_path = ''
+                # The Joliet entry for the symlink is added below, so it
+                # must not be added here as well.
                 num_bytes_to_add += self._add_fp(None, 0, False, symlink_path,
-                                                 '', tmp_joliet_path, '', None,
-                                                 False)
+                                                 '', '', '', None, False)
 
             udf_symlink_path_bytes = utils.normpath(udf_symlink_path)
 
